@@ -5,6 +5,7 @@
 package main
 
 import (
+	"bufio"
 	"encoding/json"
 	"flag"
 	"fmt"
@@ -24,6 +25,30 @@ func writeJSON(path string, v interface{}) error {
 		return err
 	}
 	return os.WriteFile(path, b, 0644)
+}
+
+type ndjson struct {
+	f *os.File
+	w *bufio.Writer
+}
+
+func newNDJSON(path string) (*ndjson, error) {
+	f, err := os.Create(path)
+	if err != nil {
+		return nil, err
+	}
+	return &ndjson{f: f, w: bufio.NewWriterSize(f, 1<<20)}, nil
+}
+
+func (n *ndjson) Put(m map[string]interface{}) {
+	b, _ := json.Marshal(m)
+	n.w.Write(b)
+	n.w.WriteByte('\n')
+}
+
+func (n *ndjson) Close() {
+	n.w.Flush()
+	n.f.Close()
 }
 
 func main() {
